@@ -606,11 +606,14 @@ func dischargeBounds(p *Prog, r *Resolver, rx map[string]*RegexVar, in ssa.Instr
 				}
 				return false, fmt.Sprintf("constant sub-match index %d exceeds the %d groups of %s", k, len(rv.Groups()), rg)
 			}
-			ic, ok := x.Index.(*ssa.Call)
-			if ok {
-				if sc := staticCallee(ic.Common()); sc != nil && sc.String() == "(*regexp.Regexp).SubexpIndex" {
-					ig := regexGlobalOf(ic.Call.Args[0])
-					name, isC := constStr(ic.Call.Args[1])
+			// the index by origin: the SubexpIndex call itself, or a value
+			// computed from one once (a field of a package-level struct
+			// initialised in the package initialiser)
+			io := r.Of(x.Index)
+			if io.K == "call" && io.Name == "(*regexp.Regexp).SubexpIndex" {
+				{
+					ig := regexGlobalOfArg(io, 0)
+					name, isC := callArgOrg(io, 1).ConstString()
 					switch {
 					case ig != rg:
 						return false, "sub-match of " + rg + " indexed with SubexpIndex of another pattern (" + ig + "): the index may exceed the slice"
